@@ -1,6 +1,7 @@
 import SyneTune.Base.Wire
 import SyneTune.Model.RandomSearcher
 import SyneTune.Model.Grid
+import SyneTune.Model.RandomRestrict
 /-
 Driver for stream `searcher` (C06, C16): run with
 `lake env lean --run SyneTune/Drivers/Searcher.lean`.  Not part of any proof.
@@ -88,6 +89,12 @@ def pConfigs (j : Json) (k : String) : Except String (List Config) := do (← ge
 
 def sortStrings (xs : List String) : List String := sortKeys xs
 
+def insertNat (x : Nat) : List Nat → List Nat
+  | [] => [x]
+  | y :: ys => if x ≤ y then x :: y :: ys else y :: insertNat x ys
+
+def sortNats (xs : List Nat) : List Nat := xs.foldr insertNat []
+
 /-! tagged tree for the encoded tuning-job state -/
 
 partial def pJ (j : Json) : Except String J := do
@@ -118,7 +125,7 @@ partial def jJ : J → Json
 
 /-! driver state -/
 
-inductive Kind | random | grid | pbt | stateless
+inductive Kind | random | grid | pbt | stateless | restricted
 
 structure DState where
   kind : Kind
@@ -129,12 +136,22 @@ structure DState where
   gimm : GImm
   gst : GState
   pbt : PbtConst
+  xw : World        -- random searcher with `restrict_configurations` (kind `restricted`)
 
 def mkOf (sp : Space) : MK := matchStr sp
 
 def jRState (s : RState) : List (String × Json) :=
   [("n_p2e", jNat s.p2e.length), ("excl", jArr ((sortStrings s.excl).map Json.str)),
    ("cfg_for", jArr (s.cfgFor.map fun (t, c) => jArr [jNat t, jConfig c]))]
+
+/-- restricted random searcher: base state, remaining list (`rc_kind` tells `None` from a
+list), `_rc_returned_pos`, and the content of the caller's list object -/
+def jXWorld (w : World) : List (String × Json) :=
+  jRState w.s.base ++
+  [("rc_kind", Json.str (match w.s.rc with | none => "none" | some _ => "list")),
+   ("rc", jArr ((w.s.rc.getD []).map jConfig)),
+   ("rc_pos", jArr ((sortNats w.s.pos).map jNat)),
+   ("caller", jArr (w.caller.map jConfig))]
 
 def jGState (s : GState) : List (String × Json) :=
   [("n_p2e", jNat s.p2e.length), ("next_index", jNat s.next),
@@ -158,14 +175,23 @@ def sInit (j : Json) : Except String (DState × Json) := do
                           down := (← if hasKey j "down" then getRat j "down" else pure 0),
                           resample := (← if hasKey j "resample" then getRat j "resample" else pure 0) }
   let base : DState := { kind := .stateless, sched := getBoolD j "sched" false, space := space, rimm := rimm,
-                         rst := RState.init [], gimm := gimm0, gst := g0, pbt := pbt }
+                         rst := RState.init [], gimm := gimm0, gst := g0, pbt := pbt,
+                         xw := { s := { base := RState.init [], rc := none, pos := [] }, caller := [], shared := false } }
   let sizeJ := match size with | some n => jNat n | none => Json.null
   let wfJ := Json.bool (Space.wfb space)
   if kind == "stateless" || kind == "pbt" then
     let k := if kind == "pbt" then Kind.pbt else Kind.stateless
     return ({ base with kind := k }, jOut (jObj [("size", sizeJ), ("wf", wfJ), ("hp_keys", jArr ((sortedHpKeys space).map Json.str))]))
   let init ← liftE (imputePoints space hints p2e)
-  if kind == "random" then
+  let restrict ← (match j.getObjVal? "restrict" with
+    | .ok .null => pure none
+    | .error _ => pure none
+    | .ok _ => do return some (← pConfigs j "restrict"))
+  if kind == "random" && restrict.isSome then
+    let w ← liftE (construct rimm init restrict)
+    return ({ base with kind := .restricted, xw := w },
+            jOut (jObj ([("init", jArr (w.s.base.p2e.map jConfig)), ("size", sizeJ), ("wf", wfJ)] ++ jXWorld w)))
+  else if kind == "random" then
     return ({ base with kind := .random, rst := RState.init init },
             jOut (jObj [("init", jArr (init.map jConfig)), ("size", sizeJ), ("wf", wfJ)]))
   else if kind == "grid" then
@@ -190,9 +216,16 @@ def sInit (j : Json) : Except String (DState × Json) := do
 
 def drawFn (draws : List Config) : Nat → Config := fun i => draws.getD i []
 
-/-- searcher-level `get_config` for the current kind; returns new state, result, draws consumed -/
-def dGet (s : DState) (draws : List Config) : Except String (DState × Option Config × Nat) :=
+/-- searcher-level `get_config` for the current kind; returns new state, result, draws consumed
+(`idraws`: recorded values of `random_state.randint(low=0, high=len(list))`, restricted path) -/
+def dGet (s : DState) (draws : List Config) (idraws : List Nat := []) : Except String (DState × Option Config × Nat) :=
   match s.kind with
+  | .restricted => do
+    -- a missing draw reads as an out-of-range position: the model answers `tape`
+    let (x, o) ← liftE (s.xw.s.getConfig s.rimm (drawFn draws) (fun i => idraws.getD i (s.xw.s.rc.getD []).length))
+    let n := x.base.rng - s.xw.s.base.rng
+    if n > draws.length + idraws.length then throw "tape"
+    return ({ s with xw := s.xw.sync x }, o, n)
   | .random => do
     let (r, o) ← liftE (s.rst.getConfig s.rimm (drawFn draws))
     let n := r.rng - s.rst.rng
@@ -207,6 +240,7 @@ def jStateOf (s : DState) : List (String × Json) :=
   match s.kind with
   | .random => jRState s.rst
   | .grid => jGState s.gst
+  | .restricted => jXWorld s.xw
   | _ => []
 
 def pOptConfig (j : Json) (k : String) : Except String (Option Config) :=
@@ -227,12 +261,14 @@ def sStep (s : DState) (j : Json) : Except String (DState × Json) := do
   let op ← getStr j "op"
   if op == "get_config" then
     let draws ← pConfigs j "draws"
-    let (s', o, n) ← dGet s draws
+    let idraws ← (if hasKey j "idraws" then getNatList j "idraws" else pure [])
+    let (s', o, n) ← dGet s draws idraws
     return (s', jOut (jObj ([("config", jOptConfig o), ("consumed", jNat n)] ++ jStateOf s')))
   else if op == "suggest" then
     let draws ← pConfigs j "draws"
     let tid ← getNat j "trial_id"
-    let (s1, o, n) ← dGet s draws
+    let idraws ← (if hasKey j "idraws" then getNatList j "idraws" else pure [])
+    let (s1, o, n) ← dGet s draws idraws
     match o with
     | none => return (s1, jOut (jObj ([("config", Json.null), ("consumed", jNat n)] ++ jStateOf s1)))
     | some c =>
@@ -248,6 +284,7 @@ def sStep (s : DState) (j : Json) : Except String (DState × Json) := do
       -- searcher is the one the scheduler then extends with `max_resource_attr` (aliasing)
       let s2 := match s1.kind with
         | .random => { s1 with rst := s1.rst.registerPending s1.rimm tid (some cc2) }
+        | .restricted => { s1 with xw := s1.xw.sync (s1.xw.s.registerPending s1.rimm tid (some cc2)) }
         | _ => s1
       let full ← liftE (postprocess s.space cc2)
       return (s2, jOut (jObj ([("config", jConfig full), ("consumed", jNat n)] ++ jStateOf s2)))
@@ -258,6 +295,9 @@ def sStep (s : DState) (j : Json) : Except String (DState × Json) := do
     | .random =>
       let s' := { s with rst := s.rst.registerPending s.rimm tid c }
       return (s', jOut (jObj (jStateOf s')))
+    | .restricted =>
+      let s' := { s with xw := s.xw.sync (s.xw.s.registerPending s.rimm tid c) }
+      return (s', jOut (jObj (jStateOf s')))
     | _ => return (s, jOut (jObj (jStateOf s)))
   else if op == "evaluation_failed" then
     let tid ← getNat j "trial"
@@ -265,6 +305,10 @@ def sStep (s : DState) (j : Json) : Except String (DState × Json) := do
     | .random =>
       let r ← liftE (s.rst.evaluationFailed s.rimm tid)
       let s' := { s with rst := r }
+      return (s', jOut (jObj (jStateOf s')))
+    | .restricted =>
+      let r ← liftE (s.xw.s.evaluationFailed s.rimm tid)
+      let s' := { s with xw := s.xw.sync r }
       return (s', jOut (jObj (jStateOf s')))
     | _ => return (s, jOut (jObj (jStateOf s)))
   else if op == "clone" then
@@ -276,6 +320,13 @@ def sStep (s : DState) (j : Json) : Except String (DState × Json) := do
       let r ← liftE (RState.clone s.rimm snap)
       let s' := { s with rst := r }
       return (s', jOut (jObj ([("p2e", jArr (r.p2e.map jConfig))] ++ jStateOf s')))
+    | .restricted =>
+      let order ← (if hasKey j "order" then do (← getArr j "order").mapM (·.getStr?) else pure s.xw.s.base.excl)
+      let snap := s.xw.s.getState s.rimm keys order
+      let r ← liftE (XState.clone s.rimm snap)
+      -- the restored searcher holds the (unpickled) list of the snapshot: a new object
+      let s' := { s with xw := { s := r, caller := s.xw.caller, shared := false } }
+      return (s', jOut (jObj ([("p2e", jArr (r.base.p2e.map jConfig))] ++ jStateOf s')))
     | .grid =>
       let order ← (if hasKey j "order" then do (← getArr j "order").mapM (·.getStr?) else pure s.gst.allInit)
       let snap := s.gst.getState keys order
